@@ -316,7 +316,11 @@ def pred_match(pred, value):
 def finding_matches(k, prop, res, viol):
     if k.get('status') != 'open' or k['property'] != prop:
         return False
-    if k.get('family') not in (None, '*', res.get('family')):
+    fam = k.get('family')
+    if isinstance(fam, dict):
+        if not pred_match(fam, res.get('family')):
+            return False
+    elif fam not in (None, '*', res.get('family')):
         return False
     isas = k.get('isa', '*')
     if isas != '*' and res.get('isa') not in isas:
